@@ -640,7 +640,9 @@ pub fn spawn_child(args: &[&str], envs: &[(&str, &str)], stdin: Option<&[u8]>) -
     use std::io::Write;
     use std::os::unix::process::ExitStatusExt;
     use std::process::{Command, Stdio};
-    let exe = std::env::current_exe().expect("current_exe");
+    // /proc/self/exe keeps naming this very image even if the file on disk has been replaced
+    // by a rebuild in the meantime (current_exe() would then point at a deleted path)
+    let exe = if std::path::Path::new("/proc/self/exe").exists() { std::path::PathBuf::from("/proc/self/exe") } else { std::env::current_exe().expect("current_exe") };
     let mut cmd = Command::new(exe);
     cmd.arg("--child").args(args).stdin(Stdio::piped()).stdout(Stdio::piped()).stderr(Stdio::piped());
     for (k, v) in envs {
